@@ -619,6 +619,11 @@ class Scenario(object):
                          'act': sorted(c.sid(i) for i in self.q.active_ids)}
         except Exception:  # noqa
             internals = {}
+        try:        # greenlets the two pools hold (a slot is taken from spawn() until the greenlet has ended)
+            spool, rpool = getattr(self.q, 'store_pool', None), getattr(self.q, 'relay_pool', None)
+            internals.update(sp=len(spool) if spool is not None else -1, rp=len(rpool) if rpool is not None else -1)
+        except Exception:  # noqa
+            pass
         c.log(t='quiesce', now=c.now(), parked_store=sum(1 for s in c.parked if s['kind'] == 'store'),
               inflight=sorted(c.inflight), timers=[int(d) for d in CLOCK.deadlines()], stored=sorted(c.stored),
               poolfull=full, **internals)
